@@ -962,7 +962,7 @@ def case_of(rep):
 def run(ctx):
     rng = ctx.rng
     quick = ctx.tier == 'quick'
-    n_worlds = {'bin': 60 if quick else 900, 'fix': 40 if quick else 600}
+    n_worlds = {'bin': 85 if quick else 480, 'fix': 55 if quick else 320}
     per_world = 4 if quick else 6
     ctx.cov['rule'] = ('histories of 12-40 operations (new / read / assign / append / setidx / encode / mkbuf / decode / scribble) over 2-4 '
                        'instances of generated binary message types (records with int fields, arrays of ints and of records, nested '
